@@ -100,4 +100,48 @@ def Op.disciplined : Op → Bool
   | .relAny _ _ => false
   | _ => true
 
+/-! ## any number of locks
+
+Lock objects are independent; what couples them is only that a task parked in some lock's `_waiting` is not running
+and therefore issues no operation on any lock.  `believers` pairs a task with the index of the lock it was handed. -/
+
+structure MSys where
+  locks : List Lock := []
+  believers : List (Task × Nat) := []
+  deriving DecidableEq, Repr
+
+/-- the single-lock view of lock `j` -/
+def MSys.proj (s : MSys) (j : Nat) : Option Sys :=
+  (s.locks[j]?).map fun l => { lock := l, believers := (s.believers.filter (·.2 = j)).map (·.1) }
+
+def MSys.parked (s : MSys) (t : Task) : Bool := s.locks.any fun l => t ∈ l.waiting
+
+def Op.task : Op → Option Task
+  | .acq t _ => some t
+  | .rel t _ => some t
+  | .relFlag _ => none
+  | .relAny t _ => some t
+
+/-- operation `o` on lock `j`; `none` = cannot be issued (no such lock, the issuing task is parked on some lock, or
+    the single-lock step refuses it) -/
+def mstep (s : MSys) (j : Nat) (o : Op) : Option MSys :=
+  match o.task with
+  | some t => if s.parked t then none else go
+  | none => go
+where go : Option MSys :=
+  match s.proj j with
+  | none => none
+  | some v =>
+    match sstep v o with
+    | none => none
+    | some v' => some { locks := s.locks.set j v'.lock,
+                        believers := s.believers.filter (·.2 ≠ j) ++ v'.believers.map (·, j) }
+
+def mrun (s : MSys) : List (Nat × Op) → MSys
+  | [] => s
+  | (j, o) :: os => mrun ((mstep s j o).getD s) os
+
+def minit (flags : List Bool) : MSys :=
+  { locks := flags.map fun f => { locked := if f then some .flag else none } }
+
 end Pox.CoopLock
